@@ -33,6 +33,22 @@ def run(check: Check):
   check.rule('R-STREAM', 'the streaming sampler skips start_round_num * num_clients items at construction and draws exactly '
              'num_clients items per round')
   check.undecided('distinctness of the Lehmer seeds across rounds; statistical uniformity; numpy choice semantics')
+  sampler_rules(check)
+  shf = repo.cls(MOD, 'UniformShuffledClientSampler')
+  get = repo.cls(MOD, 'UniformGetClientSampler')
+  _shuffled_sampler(check, shf)
+  # the streaming sampler reproduces rounds only over a reproducibly seeded client stream
+  from fjsa.props import c08
+  for ci in c08.federated_impls(repo):
+    c08.shuffled_stream(check, ci, 'R-STREAM.seeded')
+  ka = KeyAnalysis(repo)
+  for ci in (get, shf):
+    check_function(check, ka, ci.method('sample'), 'R-KEY', step_like=False)
+
+
+def sampler_rules(check: Check):
+  """Round-indexed sampling is a function of (seed, round): shared by C13 and C09 (resuming seats the sampler at a round)."""
+  repo = check.repo
   get = repo.cls(MOD, 'UniformGetClientSampler')
   shf = repo.cls(MOD, 'UniformShuffledClientSampler')
   pa = PurityAnalysis(repo)
@@ -51,15 +67,7 @@ def run(check: Check):
       if not others and not muts:
         check.ob('R-PURE', mth, f'{ci.name}.{name}', True, f'writes only self._round_num ({len(stores)} store(s))')
   _get_sampler(check, get)
-  _shuffled_sampler(check, shf)
   _prs(check)
-  # the streaming sampler reproduces rounds only over a reproducibly seeded client stream
-  from fjsa.props import c08
-  for ci in c08.federated_impls(repo):
-    c08.shuffled_stream(check, ci, 'R-STREAM.seeded')
-  ka = KeyAnalysis(repo)
-  for ci in (get, shf):
-    check_function(check, ka, ci.method('sample'), 'R-KEY', step_like=False)
 
 
 def _round_increment(check: Check, mth: FuncInfo):
